@@ -563,7 +563,7 @@ def main():
                 covers_total += 1
                 if p["status"] in ("FAILURE", "SATISFIED"):
                     covers_sat += 1
-                elif not p["desc"].startswith("opt:"):
+                elif not p["desc"].startswith("opt:") and p["desc"] not in s.get("opt_covers", ()):
                     inconclusive.append("%s: cover goal unsatisfiable or unreachable (vacuity): %s [%s]" % (r["harness"], p["desc"], p["status"]))
                 continue
             tags = tagged(p["desc"])
